@@ -209,6 +209,8 @@ def _unit(args):
         # private scratch cwd per unit so that relative writes never collide
         d = tempfile.mkdtemp(prefix="vf_unit_", dir=os.environ["VF_SCRATCH"])
         os.chdir(d)
+        # evo prints progress to stdout in places; only the parent talks
+        sys.stdout = open(os.devnull, "w")
         t0 = time.time()
         if kind == "hyp":
             rep = _run_hyp_unit(prop, sub, n, seed_int, tier)
